@@ -31,6 +31,7 @@ def case_strategy():
         'dir': st.lists(st.floats(-1, 1), min_size=9, max_size=9),
         'groups': st.sampled_from(['pos', 'vel', 'att', 'pos+vel', 'vel+att', 'pos+att', 'all', 'all', 'all']),
         'with_altitude': st.booleans(),
+        'sub': st.integers(0, 10 ** 6),          # label order of the error series handed to perturb_pva
     })
 
 
@@ -196,10 +197,13 @@ def run_perturb(case, ctx):
     res = []
     for s in LADDER:
         e = pd.Series(d_out * s, index=cols)
-        es = e.copy()
+        # the error is a labelled series: reversed / permuted label order is the same error
+        lay = case['sub'] % 3 if 'sub' in case else 0
+        e_arg = e if lay == 0 else e.iloc[::-1] if lay == 1 else e[list(np.random.RandomState(case['sub'] % 10 ** 6).permutation(cols))]
+        es = e_arg.copy()
         ps = pva.copy()
-        ins = ctx.sut(sim.perturb_pva, pva, e)
-        ctx.check(e.equals(es) and pva.equals(ps), 'input_modified:perturb_pva', '')
+        ins = ctx.sut(sim.perturb_pva, pva, e_arg)
+        ctx.check(e_arg.equals(es) and pva.equals(ps), 'input_modified:perturb_pva', '')
         x = ctx.sut(em.transform_to_internal, ins) @ e.values
         back = ctx.sut(em.correct_pva, ins, x)
         res.append(group_norms(EC.output_difference(back, pva)))
